@@ -51,7 +51,16 @@ def check(ctx, run):
                 if agg_variant(inner):
                     nv = inner[1][2]
                     tests = {canon(c[0][1]).split('::')[-1]: c[2] for c in p.conds if c[0][0] == 'call'}
-                    getter = [canon(s[1]).split('::')[-1] for s in subterms(inner) if s[0] == 'call' and canon(s[1]).split('::')[-1] in ('as_u64', 'as_i64', 'as_f64')]
+                    # `if let Some(u) = n.as_u64()` tests the same thing as `n.is_u64()`
+                    for c in p.conds:
+                        if c[0][0] == 'discr' and c[0][1][0] == 'call' and c[1] in ('eq', 'ne'):
+                            nm_ = canon(c[0][1][1]).split('::')[-1]
+                            if nm_ in ('as_u64', 'as_i64'):
+                                if c[1] == 'eq':
+                                    tests['is_' + nm_[3:]] = (c[2] == 1)
+                                elif 1 in c[2]:
+                                    tests['is_' + nm_[3:]] = False
+                    getter = sorted({canon(s[1]).split('::')[-1] for s in subterms(inner) if s[0] == 'call' and canon(s[1]).split('::')[-1] in ('as_u64', 'as_i64', 'as_f64')})
                     nums[nv] = (tests, getter)
         loc = f'{b.file}:{b.line}'
         for k in ('Null', 'Bool', 'Number', 'String', 'Array', 'Object'):
